@@ -116,72 +116,153 @@ def check_level_pairing(p, w, r):
             r.fail('C18.R1', key, rec['why'], src(e.fi.module), e.line, rec['pa'].describe())
 
 
+# ---- a tiny polynomial evaluator (atoms: pre-state statistic fields, the clock, list lengths, opaque texts)
+def _padd(a, b, k=1):
+    out = dict(a)
+    for m, c in b.items():
+        out[m] = out.get(m, 0) + k * c
+        if out[m] == 0:
+            del out[m]
+    return out
+
+
+def _pmul(a, b):
+    out = {}
+    for m1, c1 in a.items():
+        for m2, c2 in b.items():
+            m = tuple(sorted(m1 + m2))
+            out[m] = out.get(m, 0) + c1 * c2
+            if out[m] == 0:
+                del out[m]
+    return out
+
+
+def _atom(x):
+    return {(x,): 1}
+
+
+def _pshow(pl):
+    if not pl:
+        return '0'
+    return ' + '.join((f'{c}·' if c != 1 or not m else '') + '·'.join(m) for m, c in sorted(pl.items()))
+
+
+def _peval(n, env, state, recv, now_expr):
+    """polynomial value of an expression: locals are substituted, statistic fields are read from the symbolic state"""
+    if isinstance(n, ast.Constant) and isinstance(n.value, (int, float)) and not isinstance(n.value, bool):
+        return {(): n.value} if n.value != 0 else {}
+    t = ast.unparse(n)
+    if isinstance(n, ast.Name):
+        if n.id in env:
+            return env[n.id]
+        if t == now_expr:
+            return _atom('NOW')
+        return _atom(t)
+    if t == now_expr:
+        return _atom('NOW')
+    if isinstance(n, ast.Attribute):
+        if t.startswith(recv + '.') and t[len(recv) + 1:] in state:
+            return state[t[len(recv) + 1:]]
+        return _atom(t)
+    if isinstance(n, ast.BinOp) and isinstance(n.op, (ast.Add, ast.Sub, ast.Mult)):
+        l = _peval(n.left, env, state, recv, now_expr)
+        rr = _peval(n.right, env, state, recv, now_expr)
+        if isinstance(n.op, ast.Add):
+            return _padd(l, rr)
+        if isinstance(n.op, ast.Sub):
+            return _padd(l, rr, -1)
+        return _pmul(l, rr)
+    if isinstance(n, ast.UnaryOp) and isinstance(n.op, ast.USub):
+        return _padd({}, _peval(n.operand, env, state, recv, now_expr), -1)
+    if isinstance(n, ast.Call) and isinstance(n.func, ast.Name) and n.func.id == 'len' and len(n.args) == 1:
+        a = ast.unparse(n.args[0])
+        if a.startswith(recv + '.'):
+            return _atom('|' + a[len(recv) + 1:] + '|')
+        return _atom(t)
+    return _atom(t)
+
+
+FIELDS = ('_weighted_sum', '_last_num_items', '_last_level_change_time')
+
+
 def check_updater(p, fi, recv, holders, r, now_expr):
-    """Shape of an occupancy-integral update on the statistic fields of `recv`."""
+    """An occupancy-integral update on the statistic fields of `recv`, decided on the symbolic effect of the (straight-line) body:
+       _weighted_sum' = _weighted_sum + _last_num_items·(now − _last_level_change_time); stamp' = now; level' = Σ held."""
     r.analysed_functions.add(fi.key)
-    body = [n for n in fi.node.body if not (isinstance(n, ast.Expr) and isinstance(n.value, ast.Constant))]
-    pos = {}
-    level_val = None
-    integ = None
-    interval = None
-    nowvar = None
-    for i, n in enumerate(body):
-        if isinstance(n, ast.Assign) and len(n.targets) == 1:
-            t = ast.unparse(n.targets[0])
-            if t == f'{recv}._last_num_items':
-                pos['level'] = i
-                level_val = n.value
-            elif t == f'{recv}._last_level_change_time':
-                pos['stamp'] = i
-                pos['stamp_val'] = ast.unparse(n.value)
-            elif t == 'interval':
-                pos['interval'] = i
-                interval = n.value
-            elif t == 'now':
-                pos['now'] = i
-                nowvar = ast.unparse(n.value)
-        elif isinstance(n, ast.AugAssign) and ast.unparse(n.target) == f'{recv}._weighted_sum' and isinstance(n.op, ast.Add):
-            pos['integ'] = i
-            integ = n.value
     k2 = f'{fi.key}::level=Σheld'
     k3 = f'{fi.key}::integrate-previous-level'
-    if level_val is None:
+    state = {'_weighted_sum': _atom('W0'), '_last_num_items': _atom('N0'), '_last_level_change_time': _atom('T0')}
+    env = {}
+    assigned = set()
+    conditional = None
+
+    def walk(stmts, top):
+        nonlocal conditional
+        for n in stmts:
+            if isinstance(n, (ast.Assign, ast.AugAssign, ast.AnnAssign)):
+                tg = n.targets[0] if isinstance(n, ast.Assign) else n.target
+                if isinstance(n, ast.Assign) and len(n.targets) != 1:
+                    continue
+                if n.value is None:
+                    continue
+                t = ast.unparse(tg)
+                val = _peval(n.value, env, state, recv, now_expr)
+                if isinstance(n, ast.AugAssign):
+                    cur = _peval(tg, env, state, recv, now_expr)
+                    if isinstance(n.op, ast.Add):
+                        val = _padd(cur, val)
+                    elif isinstance(n.op, ast.Sub):
+                        val = _padd(cur, val, -1)
+                    elif isinstance(n.op, ast.Mult):
+                        val = _pmul(cur, val)
+                    else:
+                        val = _atom(ast.unparse(n))
+                if isinstance(tg, ast.Name):
+                    env[tg.id] = val
+                elif t.startswith(recv + '.') and t[len(recv) + 1:] in FIELDS:
+                    f = t[len(recv) + 1:]
+                    if not top:
+                        conditional = f
+                    state[f] = val
+                    assigned.add(f)
+            elif isinstance(n, ast.If):
+                walk(n.body, False)
+                walk(n.orelse, False)
+            elif isinstance(n, (ast.For, ast.While, ast.Try, ast.With)):
+                for x in ast.walk(n):
+                    if isinstance(x, ast.Attribute) and isinstance(x.ctx, ast.Store) and x.attr in FIELDS:
+                        conditional = x.attr
+
+    walk(fi.node.body, True)
+    if '_last_num_items' not in assigned:
         r.fail('C18.R2', k2, f'no assignment to {recv}._last_num_items', src(fi.module), fi.node.lineno)
     else:
-        try:
-            got = lin.norm(lin.linexpr(level_val, {}, recv))
-            want = lin.norm(sum_lin(holders, {}, {}))
-            if got == want:
-                r.ok('C18.R2', k2, f'= {lin.show(dict(want))}', src(fi.module), fi.node.lineno)
-            else:
-                r.fail('C18.R2', k2, f'records {lin.show(dict(got))} as the level, the store holds {lin.show(dict(want))}', src(fi.module), fi.node.lineno)
-        except lin.NonLinear as e:
-            r.fail('C18.R2', k2, f'recorded level is not a sum of the holding-list lengths ({e})', src(fi.module), fi.node.lineno)
+        want = {}
+        for h in holders:
+            want = _padd(want, _atom(f'|{h}|'))
+        got = state['_last_num_items']
+        if got == want and conditional != '_last_num_items':
+            r.ok('C18.R2', k2, f'= {_pshow(want)}', src(fi.module), fi.node.lineno)
+        else:
+            r.fail('C18.R2', k2, f'records {_pshow(got)} as the level, the store holds {_pshow(want)}', src(fi.module), fi.node.lineno)
     why = None
-    if integ is None or interval is None:
-        why = 'no `_weighted_sum += level * interval` / `interval = now - last change` found'
+    if '_weighted_sum' not in assigned:
+        why = 'the occupancy integral (_weighted_sum) is not advanced'
     else:
-        it = ast.unparse(integ).replace(' ', '')
-        if it not in (f'{recv}._last_num_items*interval', f'interval*{recv}._last_num_items'):
-            why = f'integrand is `{ast.unparse(integ)}`, expected previous level × interval'
-        iv = ast.unparse(interval).replace(' ', '')
-        if iv != f'now-{recv}._last_level_change_time':
-            why = f'interval is `{ast.unparse(interval)}`, expected now − last level change time'
-        if nowvar != now_expr:
-            why = f'`now` is `{nowvar}`, expected `{now_expr}`'
-        order = [pos.get('now', -1), pos.get('interval', -1), pos.get('integ', -1)]
-        if order != sorted(order) or -1 in order:
-            why = why or 'now / interval / integration are not computed in this order'
-        if 'level' in pos and pos['level'] < pos['integ']:
-            why = 'the level is refreshed before the integral is advanced (the new level is integrated over the past interval)'
-        if 'stamp' in pos and pos['stamp'] < pos['interval']:
-            why = 'the change stamp is refreshed before the interval is computed (interval is always 0)'
-        if 'stamp' not in pos or pos.get('stamp_val') != 'now':
-            why = why or 'the last-change stamp is not set to now'
+        wantw = _padd(_atom('W0'), _padd(_pmul(_atom('N0'), _atom('NOW')), _pmul(_atom('N0'), _atom('T0')), -1))
+        gotw = state['_weighted_sum']
+        if gotw != wantw:
+            why = (f'the integral becomes {_pshow(gotw)}; expected W0 + N0·(NOW − T0), i.e. the previous level (N0) integrated over '
+                   f'[last change (T0), now]')
+    if why is None:
+        if '_last_level_change_time' not in assigned or state['_last_level_change_time'] != _atom('NOW'):
+            why = f'the last-change stamp becomes {_pshow(state["_last_level_change_time"])}, expected now (`{now_expr}`)'
+        elif conditional in ('_weighted_sum', '_last_level_change_time'):
+            why = f'{conditional} is updated only conditionally'
     if why:
         r.fail('C18.R3', k3, why, src(fi.module), fi.node.lineno)
     else:
-        r.ok('C18.R3', k3, 'now → interval → integral += previous level × interval → stamp, level', src(fi.module), fi.node.lineno)
+        r.ok('C18.R3', k3, "W' = W + previous level × (now − last change); stamp' = now", src(fi.module), fi.node.lineno)
 
 
 def check_cycle_time(p, nws, r):
